@@ -26,7 +26,7 @@ def design_mc(ctx):
 def scenarios(ctx):
     rng = ctx.rng
     scs = []
-    n = 1500 if ctx.quick else 30000
+    n = 3000 if ctx.quick else 30000
     for i in range(n):
         ns = rng.choice([1, 1, 2, 3])
         w = PW.rand_world(rng, nsamples=ns, nchroms=rng.choice([1, 1, 2]), depth=rng.choice([(1, 2), (1, 3), (3, 9), (10, 25)]),
